@@ -1,4 +1,5 @@
 import Woodpile.Driver.Util
+import Woodpile.Driver.Stream
 import Woodpile.Driver.Nfs
 import Woodpile.Driver.VTime
 import Woodpile.Driver.Abt
@@ -26,6 +27,8 @@ def families : List (String × Family) :=
   ++ [("abt", AbtFam.family)]
   ++ [("vtime", VTimeFam.family)]
   ++ [("nfs", NfsFam.family)]
+  ++ [("chunker", StreamFam.chunkerFamily)]
+  ++ [("reader", StreamFam.readerFamily)]
 
 def main (args : List String) : IO UInt32 := do
   match args with
